@@ -24,10 +24,12 @@ impl InviteUsage {
         endpoint: &Endpoint,
         request: MayTake<'_, IncomingRequest>,
     ) -> Result<()> {
+        // Parse before the awaited PRACK is taken out of the shared state, it would be lost on an error
+        let rack = request.headers.get_named::<RAck>()?;
+
         let (mut prack, awaited_prack) = {
             let mut awaited_prack_opt = self.inner.awaited_prack.lock();
             if let Some(awaited_prack) = awaited_prack_opt.take() {
-                let rack = request.headers.get_named::<RAck>()?;
 
                 if awaited_prack.rack == rack.rack && awaited_prack.cseq == rack.cseq {
                     (request.take(), awaited_prack)
